@@ -1257,6 +1257,20 @@ impl<F: FromUniformBytes<64> + Ord> MockProver<F> {
     }
 }
 
+#[cfg(feature = "verif-hooks")]
+impl<F: Field> MockProver<F> {
+    /// Verification hook: mutable access to the advice table, so that an externally constructed
+    /// assignment can be put in front of the checker.
+    pub fn advice_mut(&mut self) -> &mut Vec<Vec<CellValue<F>>> {
+        &mut self.advice
+    }
+
+    /// Verification hook: mutable access to the instance table.
+    pub fn instance_mut(&mut self) -> &mut Vec<Vec<InstanceValue<F>>> {
+        &mut self.instance
+    }
+}
+
 #[cfg(test)]
 mod tests {
     use ff::Field;
